@@ -533,32 +533,43 @@ def _own(spec):
     return "required" if _enabled_state(spec) else "required-enabled-false"
 
 
+def _dependency_met(case, spec):
+    m = spec.get("m", {})
+    drv = form_of(case, m["dependency"])
+    if drv is None:
+        return None
+    if drv.get("kw", {}).get("optional") is not None or drv.get("m", {}).get("optional"):
+        on = _enabled_state(drv)
+    else:
+        on = bool(drv.get("kw", {}).get("value"))
+    return on if m.get("dependencyType", "enabled") == "enabled" else not on
+
+
 def _context(case, key):
-    """Semantic member context of parameter `key`: its own optional / enabled state, the
-    state of the leader of its group and of the parameter it depends on.  Templates and
-    the order of the forms are dropped: the member logic does not look at them."""
+    """Semantic member context of parameter `key` (templates, file order and the spelling of
+    the members dropped - the member logic does not look at them).  Members of a group that
+    has a groupOptional leader are one class per leader state: whatever their own switches
+    say, set_enabled() of the leader overwrites them."""
     spec = form_of(case, key)
     if spec is None:
         return "base"
     m = spec.get("m", {})
-    parts = [_own(spec)]
     if "group" in m:
         leaders = [s for s in case["forms"] if s.get("m", {}).get("group") == m["group"] and s.get("m", {}).get("groupOptional")]
-        if not leaders:
-            parts.append("group-without-leader")
-        elif leaders[0]["name"] == key:
-            parts.append("is-group-leader")
-        else:
-            parts.append("group-leader-" + ("on" if _enabled_state(leaders[0]) else "off"))
+        if leaders and leaders[0]["name"] != key:
+            return "group member, leader " + ("on" if _enabled_state(leaders[0]) else "off")
+    parts = [_own(spec)]
+    if "group" in m:
+        parts.append("is-group-leader" if m.get("groupOptional") else "group-without-leader")
     if "dependency" in m:
-        drv = form_of(case, m["dependency"])
-        if drv is not None:
-            if drv.get("kw", {}).get("optional") is not None or drv.get("m", {}).get("optional"):
-                on = _enabled_state(drv)
-            else:
-                on = bool(drv.get("kw", {}).get("value"))
-            parts.append(f"dependency-{m.get('dependencyType', 'default')}-driver-{'on' if on else 'off'}")
+        met = _dependency_met(case, spec)
+        if met is not None:
+            parts.append("dependency-met" if met else "dependency-unmet")
     return ",".join(parts)
+
+
+def _via(case, key, stage, ctx):
+    return "" if ctx.startswith("group member") else f" via {_entry(case, key, stage)}"
 
 
 def _entry(case, key, stage):
@@ -593,7 +604,8 @@ def _wit_fail(case, stage, err, before):
     key = _offender(case, msg)
     exc = type(err).__name__
     if key is None:
-        return f"{stage} raises {exc}: {_wit_forms(case)}"
+        subj = sorted({s["t"] for s in case["forms"] if s["name"] in ("x", "y")}) or ["base-only"]
+        return f"{stage} raises {exc}: " + "+".join(subj)
     spec = form_of(case, key)
     tmpl = spec["t"] if spec else f"base:{key}"
     val = ktag(before["data"].get(key, {"k": "missing"}))
@@ -602,6 +614,8 @@ def _wit_fail(case, stage, err, before):
         return f"reading raises {exc}: {tmpl} member {mem.group(1) if mem else '?'}"
     if tmpl in STRING_FORMS and val in TRAPS:
         return f"reading raises: string-valued parameter holding {val}"
+    if val == "none" and spec is not None:
+        return f"reading raises, data none before writing [{_context(case, key)}]"
     return f"{stage} raises {exc}: {tmpl} value {val} [{_context(case, key)}]"
 
 
@@ -664,7 +678,8 @@ def _compare(case, before, after, stage, viol, text) -> bool:
             trans, member_logic = _transition(b, a, tmpl, key)
             entry = _entry(case, key, stage)
             if member_logic:
-                wit = f"{stage}{trans} [{_context(case, key)}] via {entry}"
+                ctx = _context(case, key)
+                wit = f"{stage}{trans} [{ctx}]{_via(case, key, stage, ctx)}"
             elif tmpl in STRING_FORMS and trans.split(" -> ")[0] in TRAPS:
                 wit = "string-valued parameter: " + re.sub(r"entity-\w+", "entity", trans)
             else:
@@ -685,7 +700,8 @@ def _compare(case, before, after, stage, viol, text) -> bool:
         if a != b:
             ok = False
             val = "none" if before["data"].get(key, {"k": "missing"})["k"] == "none" else "value"
-            wit = f"{stage}enabled {b} -> {a} (data {val}) [{_context(case, key)}] via {_entry(case, key, stage)}"
+            ctx = _context(case, key)
+            wit = f"{stage}enabled {b} -> {a} (data {val}) [{ctx}]{_via(case, key, stage, ctx)}"
             viol.append(("enabled-roundtrip", wit, {"key": key, "before": b, "after": a, "file": _raw_forms(text, case), "data_before": before["data"].get(key), "data_after": after["data"].get(key)}))
     return ok
 
